@@ -246,6 +246,17 @@ class SimBroker(AsyncBroker):
                         srv.waiters.remove(fut)
             # pop + yield with no await in between: a cancelled look-ahead never
             # swallows a message.
+            lf = w.config.get("listen_fail_after")
+            if lf is not None and self.worker is not None and w.extra.get("listen_failed", 0) < 1 and not w.extra.get("probe_started") \
+                    and len(w.taken.get((self.worker, self.gen), [])) >= lf:
+                w.extra["listen_failed"] = 1
+                w.fired("listen_fail")
+                w.rec("listen_fail", None, w=self.worker)
+                # messages sitting in the failed receiver's hand-over queue are gone with it (the runner is cancelled)
+                for dl in w.taken.get((self.worker, self.gen), []):
+                    if dl.id not in w.entered:
+                        w.never.append(dl.id)
+                raise SimFault("connection to the broker lost")
             d = srv.queue.popleft()
             d.worker = self.worker
             d.gen = self.gen
@@ -567,6 +578,7 @@ class World:
         self.ops_pending = 0
         self.probe_msgs: Dict[Any, dict] = {}
         self.ended: set = set()
+        self.entered: set = set()
         self.harness_ctx: Any = None
         self.last_progress_us = 0
         self.last_scripted_us = max([m.get("send_at_us", 0) for m in script.get("messages", [])] +
@@ -579,6 +591,8 @@ class World:
     def on_event(self, kind: str, d: Any = None) -> None:
         if kind == "cb_exit":
             self.ended.add(d)
+        elif kind == "cb_enter":
+            self.entered.add(d)
         if kind in _PROGRESS_KINDS:
             self.last_progress_us = self.loop.now_us
             if self.changed is not None:
@@ -898,6 +912,12 @@ def make_task_func(world: World, tspec: dict) -> Any:
                 return retval(d)
             except asyncio.CancelledError:
                 how = "cancelled"
+                world.rec("fn_cancelled", d)          # the instant the cancellation reached the function body
+                cu = beh.get("cleanup_us")
+                if cu:
+                    # the function does not stop instantly when cancelled (rollback / flush in its except/finally block)
+                    world.fired("slow_cancel_cleanup")
+                    await _sleep_us(cu)
                 raise
             finally:
                 world.rec("fn_exit", d, how=how)
@@ -1162,6 +1182,33 @@ def start_worker(world: World, w: int) -> None:
     info: Dict[str, Any] = {"gen": gen, "node": node, "alive": True, "stopped": False, "returned": False, "ctx": ctx}
     world.workers[w] = info
 
+    async def api_main() -> None:
+        # the programmatic entry point taskiq.api.run_receiver_task: it re-creates the receiver and reconnects after a listen() failure;
+        # its only stop request is cancellation
+        import taskiq.api.receiver as api_mod
+        br = make_endpoint(world, node, worker=w, gen=gen)
+        info["broker"] = br
+        RecReceiver.world = world
+        saved = api_mod.ThreadPoolExecutor
+        api_mod.ThreadPoolExecutor = lambda max_workers=None: SimExecutor(world)  # type: ignore[assignment,misc]
+        world.rec("listen_start", None, w=w, gen=gen)
+        try:
+            await api_mod.run_receiver_task(
+                br, receiver_cls=RecReceiver, validate_params=cfg.get("validate_params", True), max_async_tasks=cfg.get("A") or 0,
+                max_prefetch=cfg.get("P", 0), propagate_exceptions=cfg.get("propagate", True), run_startup=False,
+                ack_time=AcknowledgeType(cfg["ack_type"]) if cfg.get("ack_type") else None,
+            )
+        except BaseException as exc:  # noqa: BLE001
+            world.rec("listen_raise" if not isinstance(exc, asyncio.CancelledError) else "listen_return", None, w=w, gen=gen, exc=type(exc).__name__)
+        finally:
+            api_mod.ThreadPoolExecutor = saved  # type: ignore[assignment]
+            info["returned"] = True
+
+    if cfg.get("entry") == "api":
+        info["api"] = True
+        info["task"] = world.loop.create_task(api_main(), context=ctx)
+        return
+
     async def worker_main() -> None:
         br = make_endpoint(world, node, worker=w, gen=gen)
         br.is_worker_process = True
@@ -1195,12 +1242,14 @@ def start_worker(world: World, w: int) -> None:
 
 def do_stop(world: World, w: int) -> None:
     info = world.workers.get(w)
-    if not info or not info["alive"] or info["stopped"] or ("finish" not in info and not info.get("cli")):
+    if not info or not info["alive"] or info["stopped"] or ("finish" not in info and not info.get("cli") and not info.get("api")):
         return
     info["stopped"] = True
     world.fired("stop_event")
     world.rec("stop_set", None, w=w, gen=info["gen"])
-    if info.get("cli"):
+    if info.get("api"):
+        info["task"].cancel()
+    elif info.get("cli"):
         # `taskiq worker` child process: shutdown is requested by a signal; the real handler sets the shutdown event
         info["deliver_signal"](world.config.get("stop_signal", "SIGINT"))
     else:
@@ -1407,6 +1456,20 @@ def _arm_op(world: World, op: dict) -> None:
             do_crash(world, op.get("w", 0), op.get("redeliver_us", 1000))
         elif kind == "restart":
             do_restart(world, op.get("w", 0))
+        elif kind == "reregister":
+            # the same task name is registered again (on every live endpoint) with a function of the other kind (sync <-> async)
+            ti = op.get("task", 0)
+            ts = dict(world.tasks[ti])
+            ts["sync"] = not ts.get("sync", False)
+            if ts["sync"]:
+                ts["ctx"] = ts.get("ctx", False)
+            world.tasks[ti] = ts
+            world.fired("task_reregistered")
+            eps = [world.extra.get("client")] + [i.get("broker") for i in world.workers.values() if i.get("alive")]
+            for br in eps:
+                if br is not None:
+                    labels = {k: dec_label(v) for k, v in ts.get("labels", {}).items()}
+                    br.register_task(make_task_func(world, ts), task_name=ts["name"], **labels)
 
     if "after" in op:
         kind, nth = op["after"]
@@ -1420,6 +1483,8 @@ async def _run_probe(world: World, client: SimBroker, cctx: Any, probe: dict) ->
     # ops whose trigger never happened are dropped now
     world.recorder.triggers = []
     n = probe["n"]
+    world.extra["probe_started"] = True       # faults have stopped: no transport failure is injected from here on
+    world.last_progress_us = world.loop.now_us
     world.rec("probe_start", None, n=n)
     for i in range(n):
         k = f"p{i}"
